@@ -129,6 +129,12 @@ class Component(PrintObject):
           full_struct += dp * domain.length
         full_struct += "+"
       struct = full_struct[:-1] # Get rid of trailing +
+      # Paired domains of different lengths unbalance the expanded structure
+      depth = 0
+      for symb in struct:
+        depth += (symb == "(") - (symb == ")")
+        self.assertTrue( depth >= 0, "Structure %s: domain-level structure expands to unbalanced %s" % (name, struct) )
+      self.assertTrue( depth == 0, "Structure %s: domain-level structure expands to unbalanced %s" % (name, struct) )
     try:
       self.structs[name] = Structure(name, self.prefix, strands, struct, opt)
     except AssertionError as e:
